@@ -592,4 +592,282 @@ def fsRefines (content : Bytes → Bytes) : CRefines content filesStore fsAnom w
       | _ => exact hpost.elim
     | _ => exact hpost.elim
 
+
+/-! ## what an accepted trace says about the final state -/
+
+theorem chk_ok_mono (anom : Op → Out → Bool) (k : Chk) (e : Ev) (h : (chk anom k e).ok = true) : k.ok = true := by
+  cases e with
+  | inv c op => unfold chk at h; split at h <;> simp_all
+  | lin c op =>
+    unfold chk at h
+    split at h
+    · split at h <;> simp_all
+    · simp at h
+  | ret c op o =>
+    unfold chk at h
+    split at h
+    · split at h <;> simp_all
+    · simp at h
+
+theorem foldl_ok_mono (anom : Op → Out → Bool) (tr : List Ev) (k : Chk)
+    (h : (tr.foldl (chk anom) k).ok = true) : k.ok = true := by
+  induction tr generalizing k with
+  | nil => exact h
+  | cons e rest ih => exact chk_ok_mono anom k e (ih _ h)
+
+theorem runState_append (m : SMap Bytes) (a b : List Op) :
+    runState m (a ++ b) = runState (runState m a) b := by
+  induction a generalizing m with
+  | nil => rfl
+  | cons x xs ih => simp [runState, ih]
+
+theorem linOps_cons_lin (c : Nat) (op : Op) (tr : List Ev) : linOps (.lin c op :: tr) = op :: linOps tr := by
+  simp [linOps]
+
+theorem linOps_cons_inv (c : Nat) (op : Op) (tr : List Ev) : linOps (.inv c op :: tr) = linOps tr := by
+  simp [linOps]
+
+theorem linOps_cons_ret (c : Nat) (op : Op) (o : Out) (tr : List Ev) : linOps (.ret c op o :: tr) = linOps tr := by
+  simp [linOps]
+
+/-- invariant of the checker: its map is the reference map after the linearised operations so far,
+and every client marked as linearised owes that to a linearisation event -/
+def ChkInv (k : Chk) (ops : List Op) : Prop :=
+  k.m = runState [] ops ∧ ∀ c op o, k.cl c = .done op o → op ∈ ops
+
+theorem chkInv_foldl (anom : Op → Out → Bool) (tr : List Ev) (k : Chk) (ops : List Op)
+    (hk : ChkInv k ops) (hok : (tr.foldl (chk anom) k).ok = true) :
+    ChkInv (tr.foldl (chk anom) k) (ops ++ linOps tr) ∧
+      ∀ c op o, Ev.ret c op o ∈ tr → op ∈ ops ++ linOps tr := by
+  induction tr generalizing k ops with
+  | nil => simp [linOps]; exact hk
+  | cons e rest ih =>
+    simp only [List.foldl_cons] at hok ⊢
+    have hok1 : (chk anom k e).ok = true := foldl_ok_mono anom rest _ hok
+    cases e with
+    | inv c op =>
+      have hk' : ChkInv (chk anom k (.inv c op)) ops := by
+        unfold chk
+        split
+        · refine ⟨hk.1, ?_⟩
+          intro c' op' o' h
+          by_cases e : c' = c
+          · subst e; simp [upd_same] at h
+          · simp only [upd_other _ _ e] at h; exact hk.2 _ _ _ h
+        · exact hk
+      obtain ⟨h1, h2⟩ := ih _ ops hk' hok
+      rw [linOps_cons_inv]
+      refine ⟨h1, ?_⟩
+      intro c' op' o' hm
+      simp only [List.mem_cons] at hm
+      rcases hm with hm | hm
+      · cases hm
+      · exact h2 _ _ _ hm
+    | lin c op =>
+      have hk' : ChkInv (chk anom k (.lin c op)) (ops ++ [op]) := by
+        unfold chk at hok1 ⊢
+        split at hok1
+        · rename_i op' hcl
+          split at hok1
+          · rename_i e
+            subst e
+            simp only [hcl, if_true]
+            refine ⟨by simp [runState_append, runState, hk.1], ?_⟩
+            intro c' op' o' h
+            by_cases e : c' = c
+            · subst e
+              simp only [upd_same, CSt.done.injEq] at h
+              simp [h.1]
+            · simp only [upd_other _ _ e] at h
+              exact List.mem_append_left _ (hk.2 _ _ _ h)
+          · simp at hok1
+            have := chk_ok_mono anom k (.lin c op)
+            simp_all
+        · simp at hok1
+      obtain ⟨h1, h2⟩ := ih _ _ hk' hok
+      rw [linOps_cons_lin]
+      simp only [List.append_assoc, List.singleton_append] at h1 h2
+      refine ⟨h1, ?_⟩
+      intro c' op' o' hm
+      simp only [List.mem_cons] at hm
+      rcases hm with hm | hm
+      · cases hm
+      · exact h2 _ _ _ hm
+    | ret c op o =>
+      have hdone : ∃ o', k.cl c = .done op o' := by
+        unfold chk at hok1
+        split at hok1
+        · rename_i op' o' hcl
+          split at hok1
+          · rename_i e; exact ⟨o', by rw [hcl, e.1]⟩
+          · simp at hok1
+            have := hk
+            simp_all
+        · simp at hok1
+      obtain ⟨o', hcl⟩ := hdone
+      have hmem : op ∈ ops := hk.2 _ _ _ hcl
+      have hk' : ChkInv (chk anom k (.ret c op o)) ops := by
+        unfold chk
+        split
+        · split
+          · refine ⟨hk.1, ?_⟩
+            intro c' op' o'' h
+            by_cases e : c' = c
+            · subst e; simp [upd_same] at h
+            · simp only [upd_other _ _ e] at h; exact hk.2 _ _ _ h
+          · exact hk
+        · exact hk
+      obtain ⟨h1, h2⟩ := ih _ ops hk' hok
+      rw [linOps_cons_ret]
+      refine ⟨h1, ?_⟩
+      intro c' op' o'' hm
+      simp only [List.mem_cons] at hm
+      rcases hm with hm | hm
+      · cases hm; exact List.mem_append_left _ hmem
+      · exact h2 _ _ _ hm
+
+theorem replay_runState (anom : Op → Out → Bool) (tr : List Ev) (hok : (replay anom tr).ok = true) :
+    (replay anom tr).m = runState [] (linOps tr) ∧ ∀ c op o, Ev.ret c op o ∈ tr → op ∈ linOps tr := by
+  have := chkInv_foldl anom tr Chk.init [] ⟨rfl, by intro c op o h; simp [Chk.init] at h⟩ hok
+  simpa [replay] using And.intro this.1.1 this.2
+
+theorem kasc_next {m : SMap Bytes} (hm : KAsc m) (op : Op) : KAsc (next m op) := by
+  cases op with
+  | recv k v => simp only [next]; split; exact hm; exact kasc_ins k v hm
+  | rm k => exact kasc_del k hm
+  | _ => exact hm
+
+theorem has_next {m : SMap Bytes} (hm : KAsc m) {k : Bytes} (op : Op) (hne : op ≠ .rm k)
+    (h : has m k = true) : has (next m op) k = true := by
+  cases op with
+  | recv k' v' =>
+    simp only [next]
+    split
+    · exact h
+    · simp only [has, get_ins]
+      by_cases e : k = k'
+      · simp [e]
+      · simpa [e, has] using h
+  | rm k' =>
+    have e : k ≠ k' := by intro e; subst e; exact hne rfl
+    simp only [next, has, get_del k' hm, e, if_false]
+    simpa [has] using h
+  | _ => exact h
+
+theorem has_recv (m : SMap Bytes) (k v : Bytes) : has (next m (.recv k v)) k = true := by
+  simp only [next]
+  split
+  · assumption
+  · simp [has, get_ins]
+
+/-- a blob that is received somewhere in a history and never removed is present at the end -/
+theorem has_runState {m : SMap Bytes} (hm : KAsc m) (k : Bytes) (ops : List Op)
+    (hr : has m k = true ∨ ∃ v, Op.recv k v ∈ ops) (hn : ∀ op ∈ ops, op ≠ .rm k) :
+    has (runState m ops) k = true := by
+  induction ops generalizing m with
+  | nil =>
+    rcases hr with h | ⟨v, h⟩
+    · exact h
+    · simp at h
+  | cons op rest ih =>
+    simp only [runState]
+    apply ih (kasc_next hm op)
+    · rcases hr with h | ⟨v, h⟩
+      · exact Or.inl (has_next hm op (hn op (by simp)) h)
+      · simp only [List.mem_cons] at h
+        rcases h with h | h
+        · subst h; exact Or.inl (has_recv m k v)
+        · exact Or.inr ⟨v, h⟩
+    · intro op' h; exact hn op' (by simp [h])
+
+def evOp : Ev → Op
+  | .inv _ op => op
+  | .lin _ op => op
+  | .ret _ op _ => op
+
+/-- every operation that occurs in the trace (and every operation in flight) was invoked by the schedule -/
+theorem step_ops (S : CStore) (A : Op → Prop) (y : Sys S) (lbl : Lbl)
+    (hA : ∀ c op, lbl = .call c op → A op)
+    (h : (∀ ev ∈ y.trace, A (evOp ev)) ∧ ∀ c t, y.thr c = some t → A t.op) :
+    (∀ ev ∈ (Sys.step S y lbl).trace, A (evOp ev)) ∧ ∀ c t, (Sys.step S y lbl).thr c = some t → A t.op := by
+  cases lbl with
+  | call c op =>
+    simp only [Sys.step]
+    cases ht : y.thr c with
+    | some t => simpa using h
+    | none =>
+      refine ⟨?_, ?_⟩
+      · intro ev hev
+        simp only [List.mem_append, List.mem_singleton] at hev
+        rcases hev with hev | hev
+        · exact h.1 ev hev
+        · subst hev; exact hA c op rfl
+      · intro c' t hc'
+        by_cases e : c' = c
+        · subst e
+          simp only [upd_same, Option.some.injEq] at hc'
+          subst hc'; exact hA _ op rfl
+        · simp only [upd_other _ _ e] at hc'; exact h.2 c' t hc'
+  | step c =>
+    simp only [Sys.step]
+    cases ht : y.thr c with
+    | none => simpa using h
+    | some t =>
+      have hAt : A t.op := h.2 c t ht
+      have hevl : ∀ ev ∈ (if S.lin y.sh t.op t.l = true then [Ev.lin c t.op] else []), A (evOp ev) := by
+        intro ev hev
+        split at hev
+        · simp only [List.mem_singleton] at hev; subst hev; exact hAt
+        · simp at hev
+      cases hr : (S.sec y.sh t.op t.l).2 with
+      | inl l' =>
+        refine ⟨?_, ?_⟩
+        · intro ev hev
+          simp only [List.mem_append] at hev
+          rcases hev with hev | hev
+          · exact h.1 ev hev
+          · exact hevl ev hev
+        · intro c' t' hc'
+          by_cases e : c' = c
+          · subst e
+            simp only [upd_same, Option.some.injEq] at hc'
+            subst hc'; exact hAt
+          · simp only [upd_other _ _ e] at hc'; exact h.2 c' t' hc'
+      | inr o =>
+        refine ⟨?_, ?_⟩
+        · intro ev hev
+          simp only [List.mem_append, List.mem_singleton] at hev
+          rcases hev with (hev | hev) | hev
+          · exact h.1 ev hev
+          · exact hevl ev hev
+          · subst hev; exact hAt
+        · intro c' t' hc'
+          by_cases e : c' = c
+          · subst e; simp [upd_same] at hc'
+          · simp only [upd_other _ _ e] at hc'; exact h.2 c' t' hc'
+
+theorem exec_ops (S : CStore) (A : Op → Prop) (sched : List Lbl) (hA : ∀ c op, Lbl.call c op ∈ sched → A op) :
+    ∀ ev ∈ (exec S sched).trace, A (evOp ev) := by
+  have gen : ∀ (sched : List Lbl) (y : Sys S), (∀ c op, Lbl.call c op ∈ sched → A op) →
+      ((∀ ev ∈ y.trace, A (evOp ev)) ∧ ∀ c t, y.thr c = some t → A t.op) →
+      ((∀ ev ∈ (sched.foldl (Sys.step S) y).trace, A (evOp ev)) ∧
+        ∀ c t, (sched.foldl (Sys.step S) y).thr c = some t → A t.op) := by
+    intro sched
+    induction sched with
+    | nil => intro y _ h; exact h
+    | cons lbl rest ih =>
+      intro y hA h
+      simp only [List.foldl_cons]
+      exact ih _ (fun c op hm => hA c op (by simp [hm]))
+        (step_ops S A y lbl (fun c op e => hA c op (by simp [e])) h)
+  exact (gen sched (Sys.init S) hA ⟨by simp [Sys.init], by simp [Sys.init]⟩).1
+
+theorem mem_linOps {tr : List Ev} {op : Op} (h : op ∈ linOps tr) : ∃ c, Ev.lin c op ∈ tr := by
+  simp only [linOps, List.mem_filterMap] at h
+  obtain ⟨ev, hev, he⟩ := h
+  cases ev with
+  | lin c op' => simp at he; subst he; exact ⟨c, hev⟩
+  | inv c op' => simp at he
+  | ret c op' o => simp at he
+
 end Pk.Conc
